@@ -20,6 +20,7 @@ CONFIG = {
         'plumpy.process_states.Running.kwargs': 'dict',
         'plumpy.process_states.Created.args': 'tuple',
         'plumpy.process_states.Created.kwargs': 'dict',
+        'plumpy.process_states.Waiting._waiting_future': 'asyncio.Future',
     },
     'class_invariants': {'plumpy.process_states.Continue': 'wf_continue'},
     'user_havoc': 'all',
@@ -217,6 +218,16 @@ def waiting_resume(self, value=NULL):
     ensures('first_resume_records', implies(old(wf._state) == 'PENDING', wf._state == 'FINISHED' and wf._result is value))
     ensures('later_resume_ignored', implies(old(wf._state) != 'PENDING', unchanged(wf._state, wf._result)))
     replay('first_resume_records', 'waiting_resume')
+
+
+@contract('plumpy.process_states.Waiting.interrupt', props=['C05', 'C06'])
+def waiting_interrupt(self, reason):
+    """an interruption is delivered to the coroutine waiting in execute() through the waiting future; nothing else changes"""
+    requires(isinstance(self._waiting_future, asyncio.Future))
+    wf = self._waiting_future
+    modifies(wf._state, wf._exception)
+    ensures('delivered', old(wf._state) == 'PENDING' and wf._state == 'FINISHED' and wf._exception is reason)
+    raises(asyncio.InvalidStateError, old(wf._state) != 'PENDING' and unchanged(wf._state, wf._exception))
 
 
 @contract('plumpy.process_states.Waiting.execute', props=['C13', 'C06'])
